@@ -14,7 +14,7 @@ import (
 
 // Op is one step of a history.
 type Op struct {
-	K     string `json:"k"` // longstart | longfinish | streamopen | streamecho | streamclose | call | sleep | closeidle
+	K     string `json:"k"` // longstart | longfinish | streamopen | streamecho | streamclose | call | sleep | closeidle | storm | handout
 	A     int    `json:"a,omitempty"`
 	Ticks int    `json:"ticks,omitempty"`
 	Form  string `json:"form,omitempty"`
@@ -70,6 +70,20 @@ func gen(t *rapid.T) Case {
 			c.Ops = append(c.Ops, Op{K: "closeidle"})
 		}
 	}
+	if rapid.IntRange(0, 1).Draw(t, "handout") == 0 {
+		// the harness plays the caller between "connection handed out" and "request issued" and lets
+		// housekeeping ticks pass in between (hook VerifGetConn)
+		at := rapid.IntRange(1, len(c.Ops)).Draw(t, "handout_at")
+		op := Op{K: "handout", A: rapid.IntRange(0, c.Cfg.Addrs-1).Draw(t, "handout_a"), Ticks: rapid.SampledFrom([]int{0, 1, c.Cfg.KeepAlive + 2, c.Cfg.KeepAlive + 2, c.Cfg.KeepAlive + 3}).Draw(t, "handout_pause")}
+		c.Ops = append(c.Ops[:at], append([]Op{op}, c.Ops[at:]...)...)
+	}
+	if c.Cfg.IdleTO <= 5 && rapid.IntRange(0, 2).Draw(t, "storm") == 0 {
+		// long calls started at many phases of the housekeeping tick on a connection that is just due
+		// for retirement
+		at := rapid.IntRange(0, len(c.Ops)).Draw(t, "storm_at")
+		op := Op{K: "storm", A: rapid.IntRange(0, c.Cfg.Addrs-1).Draw(t, "storm_a"), Ticks: rapid.IntRange(10, 60).Draw(t, "storm_n")}
+		c.Ops = append(c.Ops[:at], append([]Op{op}, c.Ops[at:]...)...)
+	}
 	return c
 }
 
@@ -116,7 +130,7 @@ func run(c Case) kit.Outcome {
 	fail := func(o kit.Outcome) kit.Outcome { o.History = hist; return o }
 	var longs []longCall
 	var streams []*openStream
-	busyTicks, closeIdles, reclaimChecks := 0, 0, 0
+	busyTicks, closeIdles, reclaimChecks, storms, handouts, handoutUnsent := 0, 0, 0, 0, 0, 0
 
 	echo := func(s *openStream) *kit.Outcome {
 		s.n++
@@ -267,6 +281,81 @@ func run(c Case) kit.Outcome {
 				}
 				reclaimChecks++
 			}
+		case "handout":
+			// a caller obtains a pooled connection (made recently used by a short call), is held up
+			// for Ticks housekeeping ticks before it issues its request, and the request then runs
+			// past the moment at which an unused connection would be closed
+			if len(longs) >= 3 {
+				continue
+			}
+			w.Do(op.A, "call", kit.DirEcho, bound)
+			conn, release, err := rpc.VerifGetConn(w.Tr, w.Addrs[op.A])
+			if err != nil {
+				return fail(kit.Undecided("getConn failed in a fault-free run: %v", err))
+			}
+			time.Sleep(time.Duration(op.Ticks) * tick)
+			id := w.NextID()
+			args := kit.MakePayload(id, kit.DirGate, uint32(id), 48)
+			lc := longCall{a: op.A, id: id, done: make(chan kit.CallResult, 1)}
+			go func() {
+				var reply []byte
+				err := conn.Call("S.Echo", &args, &reply)
+				release()
+				lc.done <- kit.CallResult{ID: id, Err: err, ReplyOK: err == nil && bytes.Equal(reply, kit.Transform(args))}
+			}()
+			if !w.Env(op.A).WaitStartedIDs([]uint64{id}, prompt) {
+				select {
+				case r := <-lc.done:
+					// closed before the request went out: not what C15 speaks about (no request had
+					// been sent on the connection); counted
+					h("handout on %d: the connection was closed before the request was issued (%v)", op.A, r.Err)
+					handoutUnsent++
+					continue
+				default:
+				}
+				return fail(kit.Undecided("long call did not reach its handler"))
+			}
+			h("handout on %d: request issued %d ticks after the connection was handed out; executing", op.A, op.Ticks)
+			wait := c.Cfg.IdleTO + 3 - op.Ticks
+			if wait < 2 {
+				wait = 2
+			}
+			time.Sleep(time.Duration(wait) * tick)
+			busyTicks += wait
+			if o := finishLong(lc); o != nil {
+				return fail(*o)
+			}
+			handouts++
+		case "storm":
+			// Ticks iterations: a short call makes the address's connection recently used, then - at
+			// a phase of the tick that moves with the iteration - a long call is started on it and
+			// kept executing until housekeeping had the time to retire and close an unused connection
+			if op.Ticks*(c.Cfg.IdleTO+3) > 600 {
+				return kit.Outcome{Invalid: true}
+			}
+			for i := 0; i < op.Ticks; i++ {
+				w.Do(op.A, "call", kit.DirEcho, bound)
+				time.Sleep(time.Duration(i*137%1000) * tick / 1000)
+				lc := longCall{a: op.A}
+				lc.id, lc.done = w.DoAsync(op.A, "call", kit.DirGate, 120*time.Second)
+				if !w.Env(op.A).WaitStartedIDs([]uint64{lc.id}, bound) {
+					select {
+					case r := <-lc.done:
+						h("storm %d: long call failed before reaching its handler: %v", i, r.Err)
+						continue
+					default:
+					}
+					return fail(kit.Undecided("long call did not reach its handler"))
+				}
+				time.Sleep(time.Duration(c.Cfg.IdleTO+2) * tick)
+				if o := finishLong(lc); o != nil {
+					h("storm iteration %d on %d", i, op.A)
+					return fail(*o)
+				}
+				storms++
+			}
+			busyTicks += op.Ticks * (c.Cfg.IdleTO + 2)
+			h("storm of %d long calls on %d survived", op.Ticks, op.A)
 		case "closeidle":
 			w.Tr.CloseIdleConnections()
 			if len(longs)+len(streams) > 0 {
@@ -377,6 +466,17 @@ func run(c Case) kit.Outcome {
 	if reclaimChecks > 0 {
 		out.Classes = append(out.Classes, "reclaim-checked-while-busy")
 	}
+	if handouts > 0 {
+		out.Classes = append(out.Classes, "request-issued-ticks-after-handout")
+		if c.Cfg.IdleTO >= c.Cfg.KeepAlive+4 {
+			out.Classes = append(out.Classes, "handout-retire-window-open")
+		}
+	}
+	out.Counters["handout_closed_before_send"] = handoutUnsent
+	if storms > 0 {
+		out.Classes = append(out.Classes, "long-calls-started-at-moving-tick-phases")
+		out.Counters["storm_long_calls"] = storms
+	}
 	if idleAtClose && pooledBeforeClose >= 2 {
 		out.Classes = append(out.Classes, "close-with-several-idle-connections")
 	}
@@ -386,10 +486,10 @@ func run(c Case) kit.Outcome {
 var prop = kit.Property[Case]{
 	ID:    "C15",
 	Level: "exploration",
-	Rule:  "rapid-generated histories (5-26 steps) against a real Transport over the counting in-memory network (1-3 servers, tick 2 ms, KeepAlive and IdleConnTimeout from 1 tick up, pool limits 0-3): long calls (gated handlers) started and finished, echo streams opened / exercised / closed, ordinary calls, sleeps of 1-30 ticks and CloseIdleConnections while something is busy. Oracle: every long call returns nil with its own reply once its handler finishes and every open stream still echoes (a connection with an unanswered request or an open stream is never closed by housekeeping or CloseIdleConnections); after the last use all client connections are closed within KeepAlive+IdleConnTimeout+5 ticks (+300 ms); after Transport.Close every pooled connection is closed within 2 s and the housekeeping goroutine is gone. Non-trivial: something was busy during >= 3 ticks of sleep and >= 1 CloseIdleConnections; distinct by SHA-1 of the case.",
+	Rule:  "rapid-generated histories (5-26 steps) against a real Transport over the counting in-memory network (1-3 servers, tick 2 ms, KeepAlive and IdleConnTimeout from 1 tick up, pool limits 0-3): long calls (gated handlers) started and finished, echo streams opened / exercised / closed, ordinary calls, sleeps of 1-30 ticks and CloseIdleConnections while something is busy; storms of long calls started at moving phases of the tick on a just-used connection; hand-outs, where the harness obtains a pooled connection like Transport.Call does, waits 0..KeepAlive+3 ticks, then issues a long request on it which runs past IdleConnTimeout. Oracle: every long call returns nil with its own reply once its handler finishes and every open stream still echoes (a connection with an unanswered request or an open stream is never closed by housekeeping or CloseIdleConnections); after the last use all client connections are closed within KeepAlive+IdleConnTimeout+5 ticks (+300 ms); after Transport.Close every pooled connection is closed within 2 s and the housekeeping goroutine is gone. Non-trivial: something was busy during >= 3 ticks of sleep and >= 1 CloseIdleConnections; distinct by SHA-1 of the case.",
 	Assumptions: []string{
 		"time bounds must reproduce in isolation (rule T)",
-		"the window between getConn handing out a connection and the call registering on it (~100 ns) is sampled, not owned (DESIGN.md section 8)",
+		"the window between getConn handing out a connection and the call registering on it is owned through the hook VerifGetConn (the harness plays the caller's two steps with ticks in between) and additionally sampled by calls started at moving phases of the tick",
 	},
 	Gen: gen,
 	Run: run,
